@@ -191,6 +191,11 @@ func (bcR *BlockchainReactor) Receive(chID byte, src *p2p.Peer, msgBytes []byte)
 		}
 	case *bcBlockResponseMessage:
 		// Got a block.
+		if b := msg.Block; b == nil || b.Header == nil || b.Data == nil || b.LastCommit == nil {
+			// an incomplete block must not reach poolRoutine, which has no recover
+			bcR.Switch.StopPeerForError(src, errors.New("incomplete block in bcBlockResponseMessage"))
+			return
+		}
 		bcR.pool.AddBlock(src.Key, msg.Block, len(msgBytes))
 	case *bcStatusRequestMessage:
 		// Send peer our state.
